@@ -27,6 +27,11 @@ type c11Ref struct {
 	WithSv   string `json:"with_sv,omitempty"` // a pair named like the includer's own private variable sv
 	Only     bool   `json:"only,omitempty"`
 	Dead     bool   `json:"never_executed,omitempty"` // lazy include under a false condition
+	// Var / GlobalName (lazy includes of the top-level file only): the name is the value of the
+	// context variable Var; the set's Globals bind the same variable to GlobalName, another
+	// name - the caller's context wins, and what counts is the value at run time
+	Var        string `json:"name_variable,omitempty"`
+	GlobalName string `json:"same_variable_in_globals,omitempty"`
 }
 
 type c11File struct {
@@ -266,6 +271,27 @@ func c11Gen(tp *Tapes) *c11Spec {
 	return sp
 }
 
+// c11Ctx is the caller's context of every execution: pv, plus the variables that lazy
+// includes of the top-level file take their names from.
+func c11Ctx(sp *c11Spec) pongo2.Context {
+	ctx := pongo2.Context{"pv": "P"}
+	for _, r := range sp.Files[0].Refs {
+		if r.Var != "" {
+			ctx[r.Var] = r.Name
+		}
+	}
+	return ctx
+}
+
+// c11Globals: the set's Globals bind the same variables to other names.
+func c11Globals(sp *c11Spec, set *pongo2.TemplateSet) {
+	for _, r := range sp.Files[0].Refs {
+		if r.Var != "" {
+			set.Globals[r.Var] = r.GlobalName
+		}
+	}
+}
+
 // c11StringEntry: entry points that compile a source text which has no name and no location.
 func c11StringEntry(e string) bool {
 	switch e {
@@ -393,6 +419,16 @@ func c11Finish(tp *Tapes, sp *c11Spec) {
 				if ref.Type == "lazy" && g.Draw(6) == 0 {
 					ref.Dead = true
 				}
+				if ref.Type == "lazy" && i == 0 && g.Draw(2) == 0 {
+					ref.Var = fmt.Sprintf("lzn%d", r)
+					ref.GlobalName = "no/such/global-name.tpl"
+					for oi := n - 1; oi > 0; oi-- {
+						if of := sp.Files[oi]; oi != ref.Target && (of.Kind == "plain" || of.Kind == "raw") {
+							ref.GlobalName, _ = c11WriteName(g, sp, self, c11TargetPath(sp, of.Path), true)
+							break
+						}
+					}
+				}
 			}
 			f.Refs = append(f.Refs, ref)
 		}
@@ -441,6 +477,9 @@ func c11RefText(ref c11Ref, k int) string {
 		return fmt.Sprintf(`{%% include "%s"%s %%}`, ref.Name, tail)
 	case "lazy":
 		s := fmt.Sprintf(`{%% include nl|default:"%s"%s %%}`, ref.Name, tail)
+		if ref.Var != "" {
+			s = fmt.Sprintf(`{%% include %s%s %%}`, ref.Var, tail)
+		}
 		if ref.Dead {
 			return "{% if no %}" + s + "{% endif %}"
 		}
@@ -820,6 +859,7 @@ func (c11Checker) Run(tp *Tapes, opt RunOpt) *Outcome {
 			loaders = append(loaders, w.MakeLoader(d, ls))
 		}
 		set := pongo2.NewSet("C11", loaders...)
+		c11Globals(sp, set)
 		var ro runOut
 		func() {
 			defer func() {
@@ -845,11 +885,11 @@ func (c11Checker) Run(tp *Tapes, opt RunOpt) *Outcome {
 					}()
 					switch sp.Entry {
 					case "RenderTemplateString":
-						s, err = set.RenderTemplateString(c11Content(sp, 0, sp.Files[0].Disks[0]), pongo2.Context{"pv": "P"})
+						s, err = set.RenderTemplateString(c11Content(sp, 0, sp.Files[0].Disks[0]), c11Ctx(sp))
 					case "RenderTemplateBytes":
-						s, err = set.RenderTemplateBytes([]byte(c11Content(sp, 0, sp.Files[0].Disks[0])), pongo2.Context{"pv": "P"})
+						s, err = set.RenderTemplateBytes([]byte(c11Content(sp, 0, sp.Files[0].Disks[0])), c11Ctx(sp))
 					default:
-						s, err = set.RenderTemplateFile(sp.TopName, pongo2.Context{"pv": "P"})
+						s, err = set.RenderTemplateFile(sp.TopName, c11Ctx(sp))
 					}
 				}()
 				if err != nil {
@@ -873,7 +913,7 @@ func (c11Checker) Run(tp *Tapes, opt RunOpt) *Outcome {
 				ro.res.Err, ro.res.Failed = "compile: "+err.Error(), true
 				return
 			}
-			s, err := tpl.Execute(pongo2.Context{"pv": "P"})
+			s, err := tpl.Execute(c11Ctx(sp))
 			if err != nil {
 				ro.res.Err, ro.res.Failed = "execute: "+err.Error(), true
 				return
